@@ -22,8 +22,12 @@ def scenarios(quick):
         mc=[(R(T.chain2(maxseq=2)), 'SpecPrompt', {}),
             (R(T.chain3(maxseq=1, skip=(0,))), 'SpecPrompt', {}),
             (R(T.tee_rejoin2(maxseq=1, skip=())), 'SpecZL', {}),
-            (R(T.chain3_lazy(maxseq=1)), 'SpecPrompt', {})] +
+            (R(T.chain3_lazy(maxseq=1)), 'SpecPrompt', {}),
+            # applications that drive MQ with the blocking calls (timeout = None) instead of Filter.loop_once's 100 ms slices
+            (R(T.blocking(T.chain3(maxseq=2))), 'SpecPrompt', {})] +
            ([] if quick else [
+               (R(T.blocking(T.tee(maxseq=2), ['S'])), 'SpecPrompt', {}),
+               (R(T.blocking(T.tee_rejoin2(maxseq=1, skip=()))), 'SpecZL', {}),
                (R(T.chain3(maxseq=2, skip=(1,), slow=True)), 'SpecPrompt', dict(lq=8)),
                (R(T.tee_rejoin2(maxseq=2, skip=())), 'SpecZL', {}),
                (R(T.join2(maxseq=2)), 'SpecPrompt', {}),
@@ -34,7 +38,9 @@ def scenarios(quick):
         conf=[(R(T.chain3(maxseq=2, skip=(1,))), 'SpecPrompt', 8 if quick else 100, 200),
               (R(T.tee_rejoin2(maxseq=2, skip=())), 'SpecPrompt', 8 if quick else 100, 250),
               (R(T.chain3_lazy(maxseq=2)), 'SpecPrompt', 6 if quick else 60, 200),
-              (R(T.chain3_empty(maxseq=2)), 'SpecPrompt', 4 if quick else 40, 200)],
+              (R(T.chain3_empty(maxseq=2)), 'SpecPrompt', 4 if quick else 40, 200),
+              (R(T.blocking(T.chain3(maxseq=2, skip=(1,)))), 'SpecPrompt', 6 if quick else 80, 200),
+              (R(T.blocking(T.tee_rejoin2(maxseq=2, skip=()), ['S', 'K'])), 'SpecPrompt', 6 if quick else 80, 250)],
         rand=[(R(T.chain3(maxseq=5, skip=(1, 3))), 8 if quick else 150, 1500),
               (R(T.chain3(maxseq=4, slow=True)), 6 if quick else 100, 1500),
               (R(T.tee_rejoin2(maxseq=4, skip=())), 8 if quick else 150, 2000),
@@ -45,9 +51,14 @@ def scenarios(quick):
               # a branch whose subscribed topic is absent on odd frames (completed by the topics message) next to a slow branch
               (R(T.tee_rejoin_absent(maxseq=6)), 8 if quick else 120, 3000),
               # process() returns an empty dict: it is delivered as an empty set, not dropped
-              (R(T.chain3_empty(maxseq=5)), 6 if quick else 100, 1500)],
+              (R(T.chain3_empty(maxseq=5)), 6 if quick else 100, 1500),
+              # blocking applications (MQ.recv() / MQ.send() with timeout = None)
+              (R(T.blocking(T.tee_rejoin2(maxseq=4, skip=()))), 6 if quick else 100, 2000),
+              (R(T.blocking(T.chain3(maxseq=5, skip=(1, 3)), ['A'])), 6 if quick else 100, 1500)],
         # required consumers whose ids are prefixes of one another, the shorter-named one joining late
         late=[(T.tee_names(maxseq=5), 8 if quick else 120, 2000, 'K'),
+              # a required consumer whose process starts late: nothing may be published before it has registered
+              (T.tee_names(maxseq=5), 6 if quick else 100, 2000, 'K!'),
               # the publisher appears late: the consumer's request pipe has filled up (zmq.Again) before; the handshake must still
               # wait for the SUB connection
               (R(T.chain2(maxseq=5)), 10 if quick else 150, 2000, 'S')],
@@ -58,6 +69,8 @@ def late_faults(rng, who):
     """K: the task exists but is held back.  S: the process does not exist at first (no sockets bound); when it appears, its
     SUB connections may complete much later than the request pipes (connection establishment is not a message delay)."""
     at = rng.randrange(40, 250)
+    if who.endswith('!'):          # the consumer's process does not exist at first
+        return [(0, lambda p: p.kill(who[:-1], False)), (at, lambda p: p.restart(who[:-1]))]
     if who != 'S':
         return [(0, lambda p: p.stall(who)), (at, lambda p: p.resume(who))]
     return [(0, lambda p: (p.kill(who, False), setattr(p, 'hold_est', True))),
@@ -81,7 +94,7 @@ def run(ctx):
                         name=f'{topo.name}/{spec}/liveness', timeout=900)
     for topo, spec, muts, bounds in sc['mut']:
         eng.mutation_schedules(topo, spec, muts, invariant='C03', bounds=bounds, check_c03=True,
-                               timeout=120 if ctx.quick else 900)
+                               timeout=120 if ctx.quick else 900, judgekw=dict(c03=True, lazy=True))
     for topo, spec, num, depth in sc['conf']:
         eng.conformance(topo, spec, num, depth, judgekw=dict(c03=True, lazy=True), check_c03=True)
     eng.cover(topos.with_required(topos.chain2(maxseq=1)), 'SpecPrompt')
